@@ -156,6 +156,10 @@ func (state *RuntimeState) certGenHandler(w http.ResponseWriter, r *http.Request
 	if duration > maxDuration {
 		duration = maxDuration
 	}
+	if duration < 0 {
+		state.writeFailureResponse(w, r, http.StatusBadRequest, "Error parsing form (invalid duration)")
+		return
+	}
 
 	certType := "ssh"
 	if val, ok := r.Form["type"]; ok {
